@@ -10,6 +10,8 @@
 
 mod alloc_ledger;
 mod drivers;
+mod exercise;
+mod exercise_hdr;
 mod gen;
 mod region;
 mod spec;
@@ -92,6 +94,14 @@ fn parse_args() -> Args {
     a
 }
 
+fn gcd(a: u64, b: u64) -> u64 {
+    if b == 0 {
+        a
+    } else {
+        gcd(b, a % b)
+    }
+}
+
 fn main() {
     let args = parse_args();
     util::install_panic_hook();
@@ -134,13 +144,26 @@ fn main() {
         drv.run_case(&mut ctx, idx);
         ran = 1;
     } else {
-        // first index >= from that belongs to this shard
-        let mut idx = args.from;
-        let r = idx % args.nshards;
+        // positions are sharded; the case index is a fixed permutation of the
+        // position so that sampled shards (Miri) are not correlated with the
+        // structure of enumerated case spaces
+        let mul = {
+            let mut m = 0x9e37_79b9_7f4a_7c15u64 % total.max(1);
+            if m == 0 {
+                m = 1;
+            }
+            while gcd(m, total.max(1)) != 1 {
+                m += 1;
+            }
+            m
+        };
+        let perm = |p: u64| -> u64 { ((p as u128 * mul as u128 + 12345) % total.max(1) as u128) as u64 };
+        let mut pos = args.from;
+        let r = pos % args.nshards;
         if r != args.shard {
-            idx += (args.shard + args.nshards - r) % args.nshards;
+            pos += (args.shard + args.nshards - r) % args.nshards;
         }
-        while idx < total {
+        while pos < total {
             if ran >= args.max_cases {
                 cut = true;
                 break;
@@ -152,10 +175,15 @@ fn main() {
                 cut = true;
                 break;
             }
+            let idx = perm(pos);
+            util::CURRENT_POS.store(pos, std::sync::atomic::Ordering::Relaxed);
             ctx.begin_case(idx);
+            if ctx.trace {
+                eprintln!("P {}", pos);
+            }
             drv.run_case(&mut ctx, idx);
             ran += 1;
-            idx += args.nshards;
+            pos += args.nshards;
         }
     }
     drv.finish(&mut ctx);
